@@ -64,7 +64,7 @@ class WSGIApp:
         else:
             static_file = get_static_file(path, self.static_files) \
                 if self.static_files else None
-            if static_file and os.path.exists(static_file['filename']):
+            if static_file and os.path.isfile(static_file['filename']):
                 start_response(
                     '200 OK',
                     [('Content-Type', static_file['content_type'])])
